@@ -1,4 +1,4 @@
-//@include prelude/header.rs
+//@include prelude/strstruct_header.rs
 verus! {
 pub mod pre {
 use super::*;
@@ -7,10 +7,11 @@ use super::*;
 //@include prelude/strings.rs
 //@include prelude/glob.rs
 //@include prelude/iter_ext.rs
+//@include prelude/scansel_str.rs
 } // mod pre
 use pre::*;
 
-broadcast use {vstd::std_specs::iter::filter_postcondition, lemma_take_filter_index_is_filter, lemma_lits_contains, axiom_pathbuf_ref_as_path};
+broadcast use {vstd::std_specs::iter::filter_postcondition, lemma_take_filter_index_is_filter, lemma_lits_contains, axiom_pathbuf_ref_as_path, axiom_spat_str};
 
 // The two structs of src/config/mod.rs, taken from the source at generation time (the file itself cannot be
 // #[path]-included: serde derives).
